@@ -245,15 +245,286 @@ class Cfg:
         return {x[2] for x in walk(v) if x[0] == 'field' and x[2] in self.fields and self.is_cfg(x[1])}
 
 
+# ---------------------------------------------------------------------------------------------------------------
+# push-built vectors: `let mut v = Vec::new(); for x in xs { v.push(g(x)); }` is `xs.into_iter().map(g).collect()`
+# ---------------------------------------------------------------------------------------------------------------
+# The slicer names such a vector by its creation (`Vec::new()` / `Vec::with_capacity(n)` at a site) and does not see
+# what the loop pushes.  `push_built` reads the loop off the MIR of the function that owns the vector and `xalts`
+# composes it with the iterator algebra, so that a vector collected by hand is the collection it was filled from —
+# wherever it is consumed afterwards (stored by a setter / constructor, iterated by a second loop, handed to a bulk
+# setter).  (local workaround; lib/value could give such vectors a `collect` normal form of their own)
+def _fn_loops(sl, fn):
+    cache = sl.__dict__.setdefault('_c17_loops', {})
+    if fn.path not in cache:
+        from .lib.effects import find_loops
+        cache[fn.path] = find_loops(fn, sl)
+    return cache[fn.path]
+
+
+_EMPTY_CTOR = ('::new', '::default', '::with_capacity')
+
+
+def _vec_site_local(prog, v, any_collection=False):
+    """(fn, local) of the vector created empty by the call value v (`Vec::new()` / `Vec::with_capacity(..)` with its
+    site), when that local is created there and nowhere else; with any_collection: of whatever a std constructor of
+    an empty value (`BTreeMap::new()`, `String::new()`, `Default::default()`) created"""
+    if not (isinstance(v, tuple) and v and v[0] == 'call' and len(v) == 4 and v[3]):
+        return None
+    if not (v[1] in VEC_INIT_EMPTY or (any_collection and v[1].startswith(('std::', 'core::', 'alloc::')) and v[1].endswith(_EMPTY_CTOR))):
+        return None
+    g = prog.fns.get(v[3][0])
+    c = g.call_at(v[3][1]) if g is not None else None
+    if c is None or c.indirect or not c.dest or len(c.dest) != 1 or not (c.is_(*VEC_INIT_EMPTY) or (any_collection and c.is_(v[1]))):
+        return None
+    m = c.dest[0]
+    if len(g.whole_defs(m)) != 1 or g.partial_defs(m) or m <= g.argc:
+        return None
+    return g, m
+
+
+def _vec_writers(fn, m, captures=None):
+    """(calls that receive a whole `&mut m`, other ways the vector can be written: partial / escaping borrows); closures
+    that capture a whole `&mut m` are appended to `captures` (closure local, closure path, upvar indices) when given"""
+    tmps, other = set(), []
+    for b in fn.blocks:
+        for s in b['s']:
+            if s[0] == '=' and s[2]['r'] in ('ref', 'rawptr') and s[2]['p'][0] == m and (s[2].get('mut') or s[2]['r'] == 'rawptr'):
+                if len(s[1]) == 1 and [p for p in s[2]['p'][1:] if p != '*'] == [] and s[2]['r'] == 'ref':
+                    tmps.add(s[1][0])
+                else:
+                    other.append('a mutable borrow of part of the vector')
+    calls = []
+    for t in tmps:
+        for bi, kind, idx, how, pl in fn.uses_of(t):
+            c = fn.call_at(bi) if kind == 'arg' else None
+            st = fn.blocks[bi]['s'][idx] if kind == 'stmt' else None
+            if st is not None and how == 'm' and len(pl) == 1 and st[2]['r'] == 'agg' and st[2].get('kind') == 'closure' and len(st[1]) == 1 and captures is not None:
+                captures.append((st[1][0], st[2]['def'], [i for i, o in enumerate(st[2]['ops']) if op_place(o) == [t]]))
+            elif c is None or idx != 0 or how != 'm' or len(pl) != 1:
+                other.append('the mutable borrow is kept / passed on')
+            else:
+                calls.append(c)
+        if len(fn.whole_defs(t)) != 1:
+            other.append('a reused borrow')
+    return calls, other
+
+
+def vec_untouched(prog, v):
+    """the collection created empty by the call value v is never written afterwards (True / False; None = not such a
+    value, or not created into a local of its own)"""
+    gm = _vec_site_local(prog, strip(v), any_collection=True)
+    if gm is None:
+        return None
+    caps = []
+    calls, other = _vec_writers(gm[0], gm[1], caps)
+    return not calls and not other and not caps
+
+
+def push_built(sl, v):
+    """v names a vector that is created empty and filled by one `push` in one loop (and written by nothing else), and
+    read only after that loop: -> (iterated expression, pushed value, flag) in the terms of the function that owns the
+    vector (for a private helper that returns such a vector: in the caller's terms); flag False = one push in every
+    iteration and the loop runs to the end | True = some iterations push nothing (a filter) | 'trunc' = the loop can
+    be left early on the way to a reader (take_while).  None when v is not such a vector."""
+    prog = sl.prog
+    v = strip(v)
+    if not (isinstance(v, tuple) and v and v[0] == 'call' and len(v) == 4):
+        return None
+    if v[1] not in VEC_INIT_EMPTY:
+        # a private helper whose result is such a vector: the model in the caller's terms
+        h = prog.fns.get(v[1])
+        if h is None or h.kind == 'Closure' or h.crate != 'libcnb_test' or not h.ret.startswith('std::vec::Vec<') or len(v[2]) != h.argc:
+            return None
+        inner = push_built(sl, sl.local(h, 0))
+        if inner is None:
+            return None
+        m = {(h.path, i): a for i, a in enumerate(v[2])}
+        return subst(inner[0], m, sl), subst(inner[1], m, sl), inner[2]
+    cache = sl.__dict__.setdefault('_c17_push', {})
+    key = tuple(v[3])
+    if key not in cache:
+        cache[key] = _push_built(sl, prog, v)
+    return cache[key]
+
+
+def _push_built(sl, prog, v):
+    gm = _vec_site_local(prog, v)
+    if gm is None:
+        return None
+    fn, m = gm
+    init_bb = v[3][1]
+    caps = []
+    calls, other = _vec_writers(fn, m, caps)
+    if not other and not calls and len(caps) == 1:
+        return _pushed_by_consumer(sl, prog, fn, m, init_bb, caps[0])
+    if other or caps or len(calls) != 1 or sink_kind(calls[0]) not in ('PUSH', 'EXTEND') or len(calls[0].args) != 2:
+        return None
+    push = calls[0]
+    if sink_kind(push) == 'EXTEND':
+        # `let mut v = Vec::new(); v.extend(xs);` — executed at most once, the vector read only afterwards
+        if not _once_then_read(fn, m, init_bb, push.bb):
+            return None
+        coll = sl.operand(fn, push.args[1])
+        return coll, iters.elem_of(coll), False
+    loops = [L for L in _fn_loops(sl, fn) if push.bb in L.body and push.bb != L.header]
+    if len(loops) != 1 or loops[0].collection is None or getattr(loops[0], 'exhaust', None) is None:
+        return None
+    L = loops[0]
+    # created once, before the loop; pushed at most once per iteration
+    if init_bb in L.body or init_bb in fn.reachable(L.header):
+        return None
+    again = set()
+    for s in fn.succs(push.bb):
+        again |= fn.reachable(s, stop={L.header})
+    if push.bb in again:
+        return None
+    # read only after the loop
+    readers = set()
+    for bi, kind, idx, how, pl in fn.uses_of(m):
+        if kind == 'drop' or how == 'refmut':
+            continue
+        if bi in L.body or not fn.dominates(L.header, bi):
+            return None
+        readers.add(bi)
+    flag = False
+    work, seen = [s for s in fn.succs(L.header) if s in L.body], set()
+    while work:
+        b = work.pop()
+        if b in seen or b == push.bb:
+            continue
+        seen.add(b)
+        if b == L.header:
+            flag = True         # an iteration that pushes nothing
+            break
+        work.extend(s for s in fn.succs(b) if s in L.body)
+    for x in set(L.exit_bb or []) - {L.exhaust[1]}:
+        if fn.blocks[x].get('cleanup') or fn.blocks[x]['t']['t'] == 'unreachable':
+            continue
+        if readers & fn.reachable(x):
+            flag = 'trunc'      # the loop can be left early and the vector is still read
+    return L.collection, sl.operand(fn, push.args[1]), flag
+
+
+def _once_then_read(fn, m, init_bb, bb):
+    """the call at bb runs at most once, after the vector m was created, and every read of m comes after it"""
+    again = set()
+    for s in fn.succs(bb):
+        again |= fn.reachable(s)
+    if bb in again or init_bb in again or init_bb == bb:
+        return False
+    for bi, kind, idx, how, pl in fn.uses_of(m):
+        if kind == 'drop' or how == 'refmut':
+            continue
+        if bi == bb or not fn.dominates(bb, bi):
+            return False
+    return True
+
+
+def _pushed_by_consumer(sl, prog, fn, m, init_bb, cap):
+    """`xs.into_iter().for_each(|x| v.push(g(x)))`: the closure that captured `&mut v` is the body of a loop over xs"""
+    cl_local, cl_path, idxs = cap
+    g = prog.fns.get(cl_path)
+    if g is None or len(idxs) != 1:
+        return None
+    uses = fn.uses_of(cl_local)
+    if len(uses) != 1 or uses[0][1] != 'arg' or uses[0][2] != 1 or uses[0][3] != 'm':
+        return None
+    each = fn.call_at(uses[0][0])
+    if each is None or each.indirect or each.decl != IT + 'for_each' or len(each.args) != 2:
+        return None
+    if not _once_then_read(fn, m, init_bb, each.bb):
+        return None
+    sym = sl.__dict__.get('_c17_sym')
+    if sym is None:
+        sym = sl.__dict__['_c17_sym'] = type(sl)(prog, sl.max_depth)
+        sym.symbolic_upvars = True
+    up = ('upvar', g.path, idxs[0])
+    touching = []
+    for c in g.calls:
+        vals = [sym.operand(g, a) for a in c.args]
+        if any(x[:3] == up for a in vals for x in walk(a)):
+            touching.append((c, vals))
+    for b in g.blocks:
+        for st in b['s']:
+            if st[0] == '=' and st[2]['r'] == 'agg' and any(x[:3] == up for o in st[2]['ops'] for x in walk(sym.operand(g, o))):
+                return None         # handed on to something else (an inner closure, a struct)
+    if len(touching) != 1:
+        return None
+    push, vals = touching[0]
+    if sink_kind(push) != 'PUSH' or len(vals) != 2 or strip(vals[0])[:3] != up or any(x[:3] == up for x in walk(vals[1])):
+        return None
+    again = set()
+    for s in g.succs(push.bb):
+        again |= g.reachable(s)
+    if push.bb in again:
+        return None
+    seen = g.reachable(0, stop={push.bb})
+    flag = any(b in seen and b != push.bb for b in g.return_blocks())      # some elements push nothing
+    coll = sl.operand(fn, each.args[0])
+    clv = strip(sl.operand(fn, each.args[1]))
+    mp = {(g.path, 1): iters.elem_of(coll)}
+    if clv[0] == 'closure':
+        for i, uv in enumerate(clv[2]):
+            mp[('upvar', g.path, i)] = uv
+    return coll, subst(vals[1], mp, sl), flag
+
+
+def xalts(sl, v, depth=0):
+    """iters.alts with push-built vectors decomposed: the elements of such a vector are the pushed values, ranging
+    over what the filling loop ranges over"""
+    out = []
+    for e, fa, fl in iters.alts(sl, v):
+        pm = push_built(sl, fa) if (fa is not None and depth < 4) else None
+        if pm is None:
+            out.append((e, fa, fl))
+            continue
+        coll, pushed, flag = pm
+        own = canon(iters.elem_of(strip(fa)))
+        own2 = canon(iters.elem_of(fa))
+        for e2, fa2, fl2 in xalts(sl, coll, depth + 1):
+            p2 = pushed
+            if canon(e2) != canon(iters.elem_of(coll)):
+                p2 = subst(pushed, {'__repl__': [(canon(iters.elem_of(coll)), e2)]}, sl)
+            e3 = subst(e, {'__repl__': [(own, p2), (own2, p2)]}, sl)
+            out.append((e3, fa2, iters._fl(fl, fl2, flag)))
+    return out
+
+
+def range_collection(v):
+    """X when v is `0..X.len()`: `for i in 0..xs.len() { .. xs[i] .. }` visits xs like `for x in &xs` (None otherwise)"""
+    v = strip(v) if isinstance(v, tuple) and v else v
+    if isinstance(v, tuple) and v and v[0] == 'agg' and v[1] == 'std::ops::Range' and len(v[3]) == 2:
+        d = dict(v[3])
+        s, e = strip(d.get('start', ('unknown',))), strip(d.get('end', ('unknown',)))
+        if s == ('const', 0) and e[0] == 'call' and e[1].endswith('::len') and len(e[2]) == 1 \
+                and e[1].startswith(('std::vec::Vec', 'std::slice', 'core::slice', 'std::collections::VecDeque')):
+            return e[2][0]
+    return None
+
+
+def indexed_element(v):
+    """`xs[i]` where i is the loop variable of `for i in 0..xs.len()`: the element of a loop over xs, else None"""
+    if not (isinstance(v, tuple) and v and v[0] == 'call' and v[1].endswith('::index') and len(v[2]) == 2):
+        return None
+    i = v[2][1]
+    if not (isinstance(i, tuple) and i and i[0] == 'unwrap' and i[1][0] == 'call' and i[1][1].endswith('::next') and len(i[1][2]) == 1):
+        return None
+    x = range_collection(i[1][2][0])
+    if x is None or canon(strip(x)) != canon(strip(v[2][0])):
+        return None
+    return iters.elem_of(strip(x))
+
+
 def whole_collection(sl, x, cfg, mapped=False):
     """field name when iterating x visits every element of config.<field> once, unchanged and in the collection's
     own order (`&c`, `c.iter()`, `.copied()`, `.cloned()`, collected copies ...); None for filtered, zipped or
     reversed iterations, and — unless `mapped` — for iterations that transform the elements"""
     if x is None:
         return None
+    x = range_collection(x) or x
     if any(y[0] == 'call' and y[1].endswith('::rev') for y in walk(x)):
         return None
-    al = iters.alts(sl, x)
+    al = xalts(sl, x)
     if len(al) != 1:
         return None
     elem, fa, filtered = al[0]
@@ -279,15 +550,39 @@ def element_of(sl, v, cfg):
 
 
 def literal_sequence(prog, sl, v):
-    """elements of a literal sequence value: an array, or `vec![..]` (read at the site that builds the vector)"""
+    """the leading elements of a literal sequence value: an array; `vec![..]` (read at the site that builds the
+    vector); a vector that is created there and then filled by unconditional, straight-line `push`es
+    (`let mut v = Vec::new(); v.push(a); v.push(b);` is `vec![a, b]`).  Whatever else is done to the vector must only
+    append (push / extend): anything that could reorder or remove makes the value no literal (None)."""
     v = strip(v)
     if v[0] == 'array':
         return list(v[1])
-    if v[0] == 'call' and v[1] in VEC_INIT_ARRAY and len(v) == 4 and v[3]:
+    if v[0] == 'call' and (v[1] in VEC_INIT_ARRAY or v[1] in VEC_INIT_EMPTY) and len(v) == 4 and v[3]:
         g = prog.fns.get(v[3][0])
         c = g.call_at(v[3][1]) if g is not None else None
         if c is not None and c.dest and len(c.dest) == 1:
-            return _vec_initial(sl, g, c.dest[0])
+            m = c.dest[0]
+            init = _vec_initial(sl, g, m)
+            if init is None or g.partial_defs(m):
+                return None
+            caps = []
+            writers, other = _vec_writers(g, m, caps)
+            if other or caps or any(sink_kind(w) not in ('PUSH', 'EXTEND') for w in writers):
+                return None
+            readers = [u[0] for u in g.uses_of(m) if u[1] != 'drop' and u[3] != 'refmut']
+            cmp = _order_cmp(g)
+            writers.sort(key=functools.cmp_to_key(lambda a, b: cmp(a.bb, b.bb)))
+            seq = list(init)
+            for i, w in enumerate(writers):
+                after = set()
+                for s_ in g.succs(w.bb):
+                    after |= g.reachable(s_)
+                if sink_kind(w) != 'PUSH' or len(w.args) != 2 or w.bb in after or not all(r != w.bb and g.dominates(w.bb, r) for r in readers):
+                    break
+                if any(w.bb in g.reachable(x.bb) for x in writers[i + 1:]):
+                    break       # another writer may run first
+                seq.append(sl.operand(g, w.args[1]))
+            return seq or None
     return None
 
 
@@ -366,6 +661,35 @@ def sink_kind(c):
     return None
 
 
+_CLOSURE_CALLS = ('std::ops::Fn::call', 'std::ops::FnMut::call_mut', 'std::ops::FnOnce::call_once')
+
+
+def expand_local_closure_call(E, fn, c, forall, mode, mapping, chain, stack, out):
+    """`let mut option = |name, value| { command.args([name, value]); }; option("--env", &pair);` — a call of a closure
+    that is defined in the same function runs the closure's body with its parameters bound to the call's arguments,
+    like a call of a private helper (lib/effects reports such calls as opaque CALLBACKs; local workaround).
+    Returns True when the call was expanded."""
+    if c.indirect or c.decl not in _CLOSURE_CALLS or len(c.args) != 2:
+        return False
+    clv = strip(E.slicer.operand(fn, c.args[0]))
+    if clv[0] != 'closure' or E.prog.fns.get(clv[1]) is None:
+        return False
+    tv = strip(E.slicer.operand(fn, c.args[1]))
+    if tv[0] != 'tuple':
+        return False
+    E._expand_closure(fn, c, clv, list(tv[1]), forall, mode, mapping, chain, stack, out)
+    return True
+
+
+class CallEffects(Effects):
+    """Effects that also run closures called where they are defined"""
+
+    def _expand_call1(self, fn, c, forall, mode, mapping, chain, stack, out):
+        if expand_local_closure_call(self, fn, c, forall, mode, mapping, chain, stack, out):
+            return
+        return Effects._expand_call1(self, fn, c, forall, mode, mapping, chain, stack, out)
+
+
 class SinkEffects(Effects):
     """Effects whose vocabulary is the argv sinks (Command::new/arg/args, Vec::push/extend); `Extend::extend` is an
     iterator consumer for the library, so the sinks are intercepted before the generic expansion (local workaround)"""
@@ -385,6 +709,8 @@ class SinkEffects(Effects):
 
     def _expand_call1(self, fn, c, forall, mode, mapping, chain, stack, out):
         k = sink_kind(c)
+        if k is None and expand_local_closure_call(self, fn, c, forall, mode, mapping, chain, stack, out):
+            return
         if k is None:
             g = self._from_impl(c) if not c.indirect and (c.decl or '').endswith('::Into::into') else None
             if g is not None:
@@ -541,9 +867,12 @@ def norm_elements(sl, v, depth=0):
     multi-alternative iterations are left as they are."""
     if not isinstance(v, tuple) or not v or depth > 40:
         return v
+    ie = indexed_element(v)
+    if ie is not None:
+        return ie
     if v[0] == 'unwrap' and isinstance(v[1], tuple) and v[1] and v[1][0] == 'call' and v[1][1] == IT + 'next' and len(v[1][2]) == 1:
         coll = norm_iterable(v[1][2][0])
-        al = iters.alts(sl, coll)
+        al = xalts(sl, coll)
         if len(al) == 1 and not iters.trivial(al, coll) and not al[0][2]:
             elem, fa, _ = al[0]
             if canon(elem) != canon(v):
@@ -551,7 +880,12 @@ def norm_elements(sl, v, depth=0):
         return v
     if not any(isinstance(x, tuple) for x in v):
         return v
-    return tuple(norm_elements(sl, x, depth + 1) if isinstance(x, tuple) else x for x in v)
+    nv = tuple(norm_elements(sl, x, depth + 1) if isinstance(x, tuple) else x for x in v)
+    if nv[0] == 'field' and isinstance(nv[2], str) and nv[2].isdigit():
+        b = strip(nv[1])
+        if b[0] == 'tuple' and int(nv[2]) < len(b[1]):
+            return b[1][int(nv[2])]         # a component of a pair the pipeline built: `(k, v).0` is k
+    return nv
 
 
 class _Contribution:
@@ -565,7 +899,7 @@ def elements(sl, fn, v, ftypes):
     if v0[0] == 'array':
         return [_Contribution(x, None, []) for x in v0[1]]
     out = []
-    al = iters.alts(sl, v0)
+    al = xalts(sl, v0)
     for elem, fa, filtered in al:
         guards = []
         loop = None
@@ -652,13 +986,14 @@ def argv_model(prog, sl, fn):
             if coll is None:
                 note = 'inside a loop over an unknown iterator'
                 continue
-            if kind == 'mir' and not iters.trivial(iters.alts(sl, coll), coll):
+            coll = range_collection(coll) or coll
+            if kind == 'mir' and not iters.trivial(xalts(sl, coll), coll):
                 if e.forall is not None:
                     coll = e.forall      # unrolled row by row: the row's own collection
                 else:
                     # a pipeline that became visible only after substitution (`fn options(values) { for v in values
                     # {..} }` called with `xs.iter().map(f)`): the loop visits the collection the pipeline ranges over
-                    al = iters.alts(sl, norm_iterable(coll))
+                    al = xalts(sl, norm_iterable(coll))
                     if not al or all(fa is None for _, fa, _ in al):
                         continue         # literal rows: the words are judged one by one
                     if len(al) != 1:
@@ -722,13 +1057,25 @@ def argv_model(prog, sl, fn):
             items.extend(contributions(e, e.args[1], False))
             continue
         m = _vec_local(e.call.fn, e.call.args[1]) if len(e.call.args) > 1 else None
-        key = (e.call.fn.path, m)
-        if m is not None and (key in vec_effs or _vec_initial(sl, e.call.fn, m) is not None):
+        g, mp, via = e.call.fn, e.mapping or {}, []
+        while m is not None and (g.path, m) not in vec_effs and _vec_initial(sl, g, m) is None and len(via) < 3:
+            # `command.args(self.argv())`: the vector a private helper fills and returns — its contributions are the
+            # pushes made during *this* call of the helper, in the conversion's terms
+            d = g.whole_defs(m)
+            ch = d[0][3] if len(d) == 1 and d[0][0] == 'call' else None
+            hs = prog.callee_fns(ch) if ch is not None and not ch.indirect else []
+            h = hs[0] if len(hs) == 1 and hs[0].kind != 'Closure' else None
+            mh = _through_moves(h, [0], refs=False) if h is not None else None
+            if mh is None or mh <= h.argc or not h.local_ty(mh).startswith('std::vec::Vec<'):
+                break
+            mp = E.call_mapping(g, ch, h, mp)
+            via.append(ch)
+            g, m = h, mh
+        key = (g.path, m)
+        if m is not None and (key in vec_effs or _vec_initial(sl, g, m) is not None):
             # a vector filled with push / extend and handed over whole: its contributions, at this position
             spliced.add(key)
-            g = e.call.fn
             init = _vec_initial(sl, g, m)
-            mp = e.mapping or {}
             if init is None:
                 items.append(Item('args', [('other', 'initial contents of the vector %s' % (g.local_name(m) or m))], [], None, e.call))
             elif init:
@@ -736,7 +1083,8 @@ def argv_model(prog, sl, fn):
             for w in _vec_other_writers(g, m):
                 items.append(Item('args', [('other', 'the vector %s is also modified by %s' % (g.local_name(m) or m, w))], [], None, e.call))
             for pe in vec_effs.get(key, []):
-                items.extend(contributions(pe, pe.args[1], pe.kind == 'EXTEND'))
+                if all(any(isinstance(l, Link) and l.call is ch for l in pe.chain) for ch in via):
+                    items.extend(contributions(pe, pe.args[1], pe.kind == 'EXTEND'))
             # the hand-over itself may be conditional / in a loop
             guards, loop, note = context(e)
             if guards or loop or note:
@@ -746,6 +1094,11 @@ def argv_model(prog, sl, fn):
     for key, es in vec_effs.items():
         if key not in spliced and any('std::string::String' in (e.call.fn.local_ty(key[1]) if key[1] is not None else 'std::string::String') or True for e in es):
             # words collected in a vector that never reaches Command::args as a whole
+            g = prog.fns[key[0]]
+            if key[1] is not None and push_built(sl, sl.local(g, key[1])) is not None and _is_vec_site_of(prog, sl.local(g, key[1]), g, key[1]):
+                # filled by one loop and read only afterwards: its elements are the pushed values wherever the vector
+                # is iterated (xalts); a contribution made from them is judged where it is made
+                continue
             if key[1] is None or _word_vector(prog.fns[key[0]], key[1]):
                 items.append(Item('args', [('other', 'words pushed onto a vector that is not handed to Command::args as a whole')], [], None, es[0].call))
     return program, items
@@ -804,6 +1157,8 @@ class StoreEffects(Effects):
         self.entry = entry
 
     def _expand_call1(self, fn, c, forall, mode, mapping, chain, stack, out):
+        if expand_local_closure_call(self, fn, c, forall, mode, mapping, chain, stack, out):
+            return
         # a std call that receives `&mut <place inside the entry function's self>` (insert / push / extend / entry ...)
         if not c.indirect and c.args and not self.prog.callee_fns(c) and _takes_mut(fn, c):
             recv = self.subst(self.slicer.operand(fn, c.args[0]), mapping)
@@ -927,7 +1282,7 @@ def iter_source(sl, v, pcfg):
     names = [x[1] for x in walk(v) if x[0] == 'call']
     if any(n.endswith('::rev') for n in names):
         return None, None, '!iterates in reverse order'
-    al = iters.alts(sl, v)
+    al = xalts(sl, v)
     if len(al) != 1:
         return None, None, 'not a single iteration (%d alternatives)' % len(al)
     elem, fa, flag = al[0]
@@ -970,6 +1325,27 @@ def unconv(v):
     return v
 
 
+APPENDING = ('::push', '::push_str', '::push_back', '::extend', '::extend_from_slice', '::append', '::write_fmt', '::write_str', '::write_char')
+
+
+def in_place_changes(fn, operands, sl):
+    """what is done in place to the locals behind `operands` before they are handed over, other than appending:
+    -> ('bad', callee) when something certainly removes / reorders, ('unknown', callee) for any other `&mut` use, None"""
+    unknown = None
+    for m in mutated_before_store(fn, operands, sl):
+        if m.endswith(APPENDING) or _MAP_INSERT.match(m) or _SET_INSERT.match(m):
+            continue
+        if any(rx.search(m) for rx, _ in DIFFERENT):
+            return 'bad', m
+        unknown = unknown or ('unknown', m)
+    return unknown
+
+
+def _is_vec_site_of(prog, v, fn, local):
+    gm = _vec_site_local(prog, strip(v))
+    return gm is not None and gm[0].path == fn.path and gm[1] == local
+
+
 def _operand_root(fn, operand):
     pl = op_place(operand) if operand is not None else None
     if pl is None:
@@ -977,10 +1353,13 @@ def _operand_root(fn, operand):
     return _through_moves(fn, pl, refs=False)
 
 
-def mutated_before_store(fn, operands):
+def mutated_before_store(fn, operands, sl=None):
     """calls that receive `&mut <local>` of a local holding a value about to be stored (`v.dedup()` between the conversion
-    and the assignment): [callee names]"""
+    and the assignment): [callee names].  The one push that fills a push-built vector (push_built: nothing else writes
+    it) is what makes the value, not a change of it."""
     roots = {r for r in (_operand_root(fn, o) for o in operands) if r is not None and r > fn.argc}
+    if sl is not None:
+        roots = {r for r in roots if push_built(sl, sl.local(fn, r)) is None or not _is_vec_site_of(sl.prog, sl.local(fn, r), fn, r)}
     if not roots:
         return []
     tmps = {}
@@ -1104,7 +1483,7 @@ def judge_setter(prog, sl, fn):
         ctx = loops[0]
         if ctx[3] is None:
             return V.unknown('loop over an unknown iterator')
-        al = iters.alts(sl, ctx[3])
+        al = xalts(sl, ctx[3])
         if len(al) == 1 and al[0][1] is None and not al[0][2]:
             # a one-element literal (`self.envs([(key, value)])`): the body runs exactly once, with the literal's element
             if not on_every_iteration(E, [e], ctx) or not _reached_on_every_return(E, e, ctx):
@@ -1125,7 +1504,7 @@ def judge_setter(prog, sl, fn):
         return V.bad('not stored on every path')
     call = e.call
     ops = [call.stmt[2].get('o')] if isinstance(call, _Assign) and call.stmt[2]['r'] == 'use' else list(call.args[1:])
-    muts = mutated_before_store(call.fn, ops)
+    muts = mutated_before_store(call.fn, ops, sl)
     if muts:
         bad = [m for m in muts if any(rx.search(m) for rx, _ in DIFFERENT)]
         return V.bad('the value is changed by %s before it is stored' % bad[0]) if bad else V.unknown('the value is handed to %s before it is stored' % muts[0])
@@ -1223,11 +1602,14 @@ def judge_constructor(prog, sl, fn, ty):
     for name, fv in v[3]:
         pv = peel(fv)
         p = pcfg.exact(pv)
-        if p is None and pcfg.mentioned(pv):
+        built = push_built(sl, pv) if p is None else None     # a vector filled by a loop: its contents, not `Vec::new()`
+        if p is None and (pcfg.mentioned(pv) or built is not None):
             p, projs, why = iter_source(sl, pv, pcfg) if pv[0] == 'call' else (None, None, '!')
             if p is None or projs is not None:
-                return (False if (why or '').startswith('!') or pcfg.mentioned(pv) else None), \
-                    'field %s is initialised with %s, not with the parameter itself' % (name, vstr(pv)[:70]), where, defaults
+                shown = vstr(pv)[:70] if built is None else 'a vector of %s for each of %s' % (vstr(strip(built[1]))[:50], vstr(strip(built[0]))[:40])
+                derived = pcfg.mentioned(pv) or (built is not None and (pcfg.mentioned(built[0]) or pcfg.mentioned(built[1])))
+                return (False if (why or '').startswith('!') or derived else None), \
+                    'field %s is initialised with %s, not with the parameter itself' % (name, shown), where, defaults
         if p is None:
             defaults[name] = fv
             continue
@@ -1240,13 +1622,16 @@ def judge_constructor(prog, sl, fn, ty):
     return True, ', '.join('%s <- %s' % (f, fn.local_name(p + 1)) for p, f in sorted(where.items())), where, defaults
 
 
-def is_empty_default(v):
-    """the value is an empty collection / None / a plain literal"""
+def is_empty_default(v, prog=None):
+    """the value is an empty collection / None / a plain literal (a vector created empty must also stay untouched: the
+    slicer names a vector by its creation, whatever is pushed onto it afterwards)"""
     v = strip(v)
     if v[0] == 'agg':
-        return v[2] == 'None' or not v[3] or all(is_empty_default(x) for _, x in v[3])
+        return v[2] == 'None' or not v[3] or all(is_empty_default(x, prog) for _, x in v[3])
     if v[0] == 'const':
         return True
+    if prog is not None and vec_untouched(prog, v) is False:
+        return False
     if v[0] == 'call' and not v[2]:
         return v[1].endswith(('::new', '::default'))
     if v[0] == 'call' and v[1].endswith('::with_capacity'):
